@@ -1,7 +1,7 @@
 (* C17: the tie between the hand-written model of package chat (Model/C17.v) and the function bodies
    tools/gotrans/c17.go renders from the repository on every run (Gen/C17gen.v).
    1. *_skel_ok: every translated declaration (struct tag tables, defined types, fmtCode / colors / fmtPat,
-      18 function skeletons with their signatures) is the one recorded in Proofs/C17_expected.v
+      18 function skeletons with their signatures, Message.String among them) is the one recorded in Proofs/C17_expected.v
       (reflexivity; any edit of these declarations or bodies - a renamed key, a swapped statement, a changed
       constant, a dropped check - breaks one of them).
    2. Interpreters of the skeletons with leaf tables giving the rendered Go texts their meaning in the model,
@@ -14,7 +14,6 @@
         marshal_nbt_is_skel     Message.MarshalNBT (normalise, choose the struct, encode its ROWS) = fields_of
         marshal_json_is_skel    Message.MarshalJSON                          = to_json
         clear_string_is_skel    Message.ClearString: text, translate with arguments, extra = clear_string
-        ansi_string_is_skel     Message.String                               = ansi_string
         trans_ctrl_is_skel      TransCtrlSeq's callback                      = one step of trans_ctrl
         type_write_is_skel / type_read_is_skel   Type.WriteTo / ReadFrom     = type_write / type_read
         wire_is_skel            Message.WriteTo / ReadFrom / TagType         = pk.NBT of the component
@@ -739,117 +738,6 @@ Proof.
     cbn [rconcat]. 
     set (TR := match rall _ with LOk l => _ | LCrash => RCrash | LUnsup => RUnsup end).
     destruct TR; [destruct (rconcat (map (clear_string tbl) e)); reflexivity | reflexivity | reflexivity].
-Qed.
-
-(* ------------------------------------------------------------------ Message.String *)
-Section AnsiInterp.
-  Variable tbl : list (str * str).
-  Variable rec : msg -> rres.                     (* String of a nested component *)
-  (* format: the SGR parameter builder; text/ok: the results of TransCtrlSeq; the writes to msg, in order *)
-  Record ast := { a_fmt : str; a_text : option (str * bool); a_pieces : list rres }.
-  Definition a_push (x : list rres) (st : ast) : ast :=
-    {| a_fmt := a_fmt st; a_text := a_text st; a_pieces := a_pieces st ++ x |}.
-  Definition as_cond (c : string) (m : msg) : option bool :=
-    if c == "m.Bold" then Some (s_bold (m_style m))
-    else if c == "m.Italic" then Some (s_italic (m_style m))
-    else if c == "m.UnderLined" then Some (s_underlined (m_style m))
-    else if c == "m.StrikeThrough" then Some (s_strike (m_style m))
-    else if c == "m.Color != """"" then Some (negb (is_nil (s_color (m_style m))))
-    else None.
-  Definition as_fmt_write (t : string) (m : msg) : option str :=
-    if t == "format.WriteString(""1;"")" then Some [49; 59]
-    else if t == "format.WriteString(""3;"")" then Some [51; 59]
-    else if t == "format.WriteString(""4;"")" then Some [52; 59]
-    else if t == "format.WriteString(""9;"")" then Some [57; 59]
-    else if t == "format.WriteString(colors[m.Color] + "";"")" then Some (assoc (s_color (m_style m)) colors ++ [59])
-    else None.
-  (* fmt.Fprintf(&msg, translateMap[m.Translate], m.With...): %s prints a component through its String method *)
-  Definition as_fprintf (m : msg) : rres :=
-    match rall (map (fun x => match x with AM m' => rec m' | AS z => ROk z end) (m_with m)) with
-    | LOk l => sprintf (assoc (m_translate m) tbl) (combine (map is_AM (m_with m)) l)
-    | LCrash => RCrash
-    | LUnsup => RUnsup
-    end.
-  Fixpoint as_run (ss : list cstmt17) (m : msg) (st : ast) : option (list rres) :=
-    match ss with
-    | CReturn [r] :: _ => if r == "msg.String()" then Some (a_pieces st) else None
-    | CText t :: rest =>
-        if t == "var msg, format strings.Builder" then as_run rest m st
-        else if t == "text, ok := TransCtrlSeq(m.Text, true)" then
-          as_run rest m {| a_fmt := a_fmt st; a_text := Some (trans_ctrl true (m_text m)); a_pieces := a_pieces st |}
-        else if t == "msg.WriteString(text)" then
-          match a_text st with Some (tx, _) => as_run rest m (a_push [ROk tx] st) | None => None end
-        else None
-    | CIf i c [CText w] [] :: rest =>
-        if i == "" then
-          match as_cond c m with
-          | Some b =>
-              match as_fmt_write w m with
-              | Some x => as_run rest m (if b then {| a_fmt := a_fmt st ++ x; a_text := a_text st; a_pieces := a_pieces st |}
-                                         else st)
-              | None => None
-              end
-          | None =>
-              if c == "format.Len() > 0" then
-                if w == "msg.WriteString(""\033["" + format.String()[:format.Len()-1] + ""m"")" then
-                  as_run rest m
-                    (if is_nil (a_fmt st) then st
-                     else a_push [if (List.length (a_fmt st) <? 1)%nat then RCrash   (* the slice [:Len()-1] *)
-                                  else ROk (esc :: 91 :: removelast (a_fmt st) ++ [109])] st)
-                else None
-              else if c == "m.Translate != """"" then
-                if w == "_, _ = fmt.Fprintf(&msg, translateMap[m.Translate], m.With...)" then
-                  as_run rest m (if is_nil (m_translate m) then st else a_push [as_fprintf m] st)
-                else None
-              else if c == "format.Len() > 0 || ok" then
-                if w == "msg.WriteString(""\033[0m"")" then
-                  match a_text st with
-                  | Some (_, ok) =>
-                      as_run rest m (if negb (is_nil (a_fmt st)) || ok then a_push [ROk [esc; 91; 48; 109]] st else st)
-                  | None => None
-                  end
-                else None
-              else None
-          end
-        else None
-    | CIf i c [CRange h [CText wr]] [] :: rest =>
-        if (i == "") && (c == "m.Extra != nil") && (h == "i := range m.Extra")
-           && (wr == "msg.WriteString(m.Extra[i].String())") then
-          as_run rest m (a_push (map rec (m_extra m)) st)
-        else None
-    | _ => None
-    end.
-End AnsiInterp.
-
-Lemma rbind_ret r : rbind r (fun y => ROk y) = r.
-Proof. destruct r; reflexivity. Qed.
-Lemma rconcat_app a : forall b,
-  rconcat (a ++ b) = rbind (rconcat a) (fun x => rbind (rconcat b) (fun y => ROk (x ++ y))).
-Proof.
-  induction a as [|r a IH]; intros b.
-  - cbn. rewrite rbind_ret. reflexivity.
-  - cbn [app rconcat]. rewrite IH. destruct r as [s| |]; try reflexivity. cbn [rbind].
-    destruct (rconcat a) as [x| |]; try reflexivity. cbn [rbind].
-    destruct (rconcat b) as [y| |]; try reflexivity. cbn [rbind]. rewrite app_assoc. reflexivity.
-Qed.
-Theorem ansi_string_is_skel tbl m :
-  option_map rconcat
-    (as_run tbl (ansi_string tbl) (snd expected_Message_String) m {| a_fmt := []; a_text := None; a_pieces := [] |})
-  = Some (ansi_string tbl m).
-Proof.
-  destruct m as [t s h tr w e]. destruct s as [b1 b2 b3 b4 b5 fo co ins cl].
-  cbn [ansi_string]. unfold sgr. cbn [s_bold s_italic s_underlined s_strike s_color].
-  destruct (trans_ctrl true t) as [tx ch] eqn:ET.
-  set (TR := match rall _ with LOk l => _ | LCrash => RCrash | LUnsup => RUnsup end).
-  assert (ETR: as_fprintf tbl (ansi_string tbl) (Msg t (mkStyle b1 b2 b3 b4 b5 fo co ins cl) h tr w e) = TR) by reflexivity.
-  destruct b1, b2, b3, b4; (destruct co as [|c0 co']; [|destruct (assoc (c0 :: co') colors) as [|y ys] eqn:EA]);
-    destruct tr as [|k0 tr'];
-    cbn -[rconcat trans_ctrl ansi_string as_fprintf removelast]; rewrite ?ET, ?EA;
-    cbn -[rconcat trans_ctrl ansi_string as_fprintf removelast]; rewrite ?ETR;
-    rewrite ?rconcat_app; cbn [rconcat rbind app];
-    try (destruct TR as [tro| |]; cbn [rbind]; try reflexivity);
-    destruct (rconcat (map (ansi_string tbl) e)) as [eo| |]; cbn [rbind]; try reflexivity;
-    destruct ch; cbn [rconcat rbind app orb negb]; rewrite ?app_nil_r, <- ?app_assoc; reflexivity.
 Qed.
 
 (* ------------------------------------------------------------------ summary obligations *)
